@@ -787,3 +787,31 @@ def ob_dbos_work_after_internal_wake(T: int, x: int, a: int, z: int, precreate: 
 
 
 TW = B(3, 4)
+
+
+
+@obligation(quick=240, thorough=600, partitions_quick=[f"lat == {l} and T == {t}" for l in (1, 2) for t in (1, 2)],
+            what="in-process stack over a store whose handler look-ups by run id answer LATE (environment stub: the answer is read at once and "
+                 "delivered lat seconds later, so the release timer decides on a stale answer unless it looks at the run again): a run that "
+                 "wakes up by itself (a wait_for_event timeout x) while the release timer's look-up is in flight, and then works z seconds, "
+                 "is not aborted in mid-step — it completes with its fallback result",
+            bounds={"idle_timeout T": "1..2", "look-up latency": "1..2", "internal timeout x": "1..T+2*lat-1 (beyond that the timer is lost with the "
+                    "released loop: KF-C26-2 / KF-C14-1)", "work after the wake-up z": "1..2"})
+def ob_inproc_internal_wake_during_slow_lookup(T: int, lat: int, x: int, z: int) -> bool:
+    """
+    pre: 1 <= T <= 2 and 1 <= lat <= 2 and 1 <= z <= 2 and 1 <= x < T + 2 * lat
+    post: _
+    """
+    T, lat, x, z = concrete(T, 1, 2), concrete(lat, 1, 2), concrete(x, 1, 5), concrete(z, 1, 2)
+    o = run_stack("inproc", T, [], lambda: TimerWF(kind=0, x=x, z=z, timeout=None), _mk_event, early=True, probe_to=0, settle=0,
+                  horizon=x + z + 4 * lat + T + 4, slow_write=(-1, lat, True))
+    bad: List[str] = []
+    if o["errors"] or o["loop_exceptions"]:
+        bad.append(f"errors {o['errors']} {o['loop_exceptions']}")
+    if o["status"] != "completed" or o["result"] != -1:
+        bad.append(f"final {o['status']}/{o['result']}, wanted completed/-1")
+    for ab in o["aborts"]:
+        if ab["was_running"] and not abort_state_is_quiescent(ab):
+            bad.append(f"t={ab['at']}: released with workers={ab['workers_running']} timer pending={ab['wakeup_pending']}")
+    _debug(f"slow lookup T={T} lat={lat} x={x} z={z}", bad)
+    return not bad
